@@ -332,13 +332,21 @@ func (p *Parser) parseBuffer(buf []byte, last bool) (err error) {
 			continue
 		case openObject:
 			if 256 < len(p.mode) {
-				switch p.mode[256] {
+				pending := p.mode[256]
+				switch pending {
 				case 'n':
 					if err = p.add(p.num.AsNum(), off); err != nil {
 						return
 					}
 				case 't':
 					p.addToken(off)
+				}
+				if depth == 0 && (pending == 'n' || pending == 't') {
+					// The number or token is a complete document. Hand it
+					// over and look at the brace again afterwards.
+					p.mode = valueMap
+					off--
+					break
 				}
 			}
 			p.starts = append(p.starts, -1)
@@ -456,13 +464,21 @@ func (p *Parser) parseBuffer(buf []byte, last bool) (err error) {
 			continue
 		case openArray:
 			if 256 < len(p.mode) {
-				switch p.mode[256] {
+				pending := p.mode[256]
+				switch pending {
 				case 'n':
 					if err = p.add(p.num.AsNum(), off); err != nil {
 						return
 					}
 				case 't':
 					p.addToken(off)
+				}
+				if depth == 0 && (pending == 'n' || pending == 't') {
+					// The number or token is a complete document. Hand it
+					// over and look at the bracket again afterwards.
+					p.mode = valueMap
+					off--
+					break
 				}
 			}
 			p.starts = append(p.starts, len(p.stack))
